@@ -40,6 +40,7 @@ type event struct {
 	RemPort int   `json:"remPort,omitempty"` // out: explicit destination port (0 = the remote socket's), for unbound ports
 	Target string `json:"target,omitempty"` // in: "map:<n>" n-th learned external address (mod), "fresh" never-allocated port, "unpaired" IP
 	IdleNs int64  `json:"idleNs,omitempty"`
+	Blocked bool  `json:"blocked,omitempty"` // out: a chunk filter on the NAT router discards this datagram; it must leave no trace (no mapping, no permission, no refresh)
 	Race   bool   `json:"race,omitempty"` // out: while it is written, the remote it goes to sends a datagram to the external address this flow had last (inbound and outbound translation of one flow run side by side)
 	Form   int    `json:"form,omitempty"` // representation of the destination IP handed to WriteTo: 0 as stored, 1 four-byte, 2 sixteen-byte
 }
@@ -52,6 +53,7 @@ type scenario struct {
 	Internal  int     `json:"internal"` // number of internal sockets (two per host)
 	Remotes   int     `json:"remotes"`  // number of remote sockets (two per host: same IP, other port)
 	Events    []event `json:"events"`
+	Forever   bool    `json:"forever,omitempty"` // MappingLifeTime is the largest Duration ("never expires"); the idle periods keep following lifeNs
 	NatDelayNs int64  `json:"natDelayNs,omitempty"` // MinDelay of the NAT router: it handles an outbound datagram no sooner than this after the write
 	PairMix   int     `json:"pairMix,omitempty"` // 1:1 mode: 0 pairs listed ascending, 1 listed in reverse order, 2 crossed (lowest external IP with highest local IP)
 	RemoteSet int     `json:"remoteSet,omitempty"` // which set of remote host addresses (see remoteSets)
@@ -63,8 +65,11 @@ func gen(r *harn.Rng, tier string) interface{} {
 	sc := &scenario{Mapping: r.Intn(3), Filtering: r.Intn(3), LifeNs: int64(r.Pick(50, 1000, 30000)) * 1e6,
 		Internal: r.Range(1, 4), Remotes: r.Range(1, 4)}
 	if r.Bool(0.15) {
-		sc.OneToOne = r.Range(1, 3)
+		sc.OneToOne = r.Pick(1, 2, 3, 8)
 		sc.Internal = 2 * sc.OneToOne
+		if sc.Internal > 6 {
+			sc.Internal = 6
+		}
 	}
 	if sc.OneToOne == 0 && r.Bool(0.25) {
 		sc.TwoIPs = true
@@ -73,9 +78,12 @@ func gen(r *harn.Rng, tier string) interface{} {
 	sc.PairMix = r.Pick(0, 0, 1, 2)
 	if r.Bool(0.2) {
 		sc.NatDelayNs = sc.LifeNs / int64(r.Pick(2, 4, 10))
+	} else if r.Bool(0.08) {
+		sc.Forever = true
 	}
 	if (tier == "thorough" && r.Bool(0.02)) || r.Bool(0.0015) || os.Getenv("VERIF_C02_EXHAUST") != "" {
 		sc.Exhaust = true
+		sc.Forever = false
 		sc.NatDelayNs = 0
 		sc.Mapping = 2
 		sc.OneToOne = 0
@@ -94,7 +102,16 @@ func gen(r *harn.Rng, tier string) interface{} {
 			if r.Bool(0.1) {
 				e.RemPort = 9999 // unbound port on the remote host
 			}
+			if r.Bool(0.08) {
+				e.Blocked, e.Race = true, false
+			}
 			sc.Events = append(sc.Events, e)
+			if r.Bool(0.04) {
+				// more remotes than a small fixed-size permission table holds: nine unbound ports
+				for k := 0; k < 9; k++ {
+					sc.Events = append(sc.Events, event{K: "out", Int: e.Int, Rem: e.Rem, RemPort: 9100 + k})
+				}
+			}
 		case x < 80:
 			e := event{K: "in", Rem: r.Intn(sc.Remotes), Form: r.Pick(0, 0, 1, 2)}
 			switch r.Intn(10) {
@@ -201,12 +218,16 @@ func run(env *simrt.Env, sci interface{}) {
 	sc := sci.(*scenario)
 	c02, c03 := prop == "C02", prop == "C03"
 	L := time.Duration(sc.LifeNs)
+	natL := L
+	if sc.Forever {
+		natL = time.Duration(1<<63 - 1)
+	}
 	wan, err := vnet.NewRouter(&vnet.RouterConfig{CIDR: "0.0.0.0/1", LoggerFactory: quietLF()})
 	if err != nil {
 		env.Infra("NewRouter: %v", err)
 		return
 	}
-	nt := &vnet.NATType{MappingBehavior: vnet.EndpointDependencyType(sc.Mapping), FilteringBehavior: vnet.EndpointDependencyType(sc.Filtering), MappingLifeTime: L}
+	nt := &vnet.NATType{MappingBehavior: vnet.EndpointDependencyType(sc.Mapping), FilteringBehavior: vnet.EndpointDependencyType(sc.Filtering), MappingLifeTime: natL}
 	lanCfg := &vnet.RouterConfig{CIDR: "192.168.0.0/24", StaticIPs: []string{"1.2.3.1"}, NATType: nt, MinDelay: time.Duration(sc.NatDelayNs), LoggerFactory: quietLF()}
 	pairExt := map[string]string{} // local ip -> external ip (1:1)
 	pairLoc := map[string]string{}
@@ -240,6 +261,15 @@ func run(env *simrt.Env, sci interface{}) {
 		env.Infra("AddRouter: %v", err)
 		return
 	}
+	// datagrams marked "BLKD" are discarded by a chunk filter of the NAT router
+	lan.AddChunkFilter(func(c vnet.Chunk) bool {
+		d := c.UserData()
+		if len(d) >= 8 && string(d[4:8]) == "BLKD" {
+			simrt.CountFault("outbound-blocked-by-filter")
+			return false
+		}
+		return true
+	})
 	var internals, remotes []*sockT
 	mkHost := func(rt *vnet.Router, ip string, ports ...int) []*sockT {
 		n, err := vnet.NewNet(&vnet.NetConfig{StaticIPs: []string{ip}})
@@ -326,6 +356,7 @@ func run(env *simrt.Env, sci interface{}) {
 	mkPayload := func() ([]byte, uint32) {
 		p := harn.Bytes(uint64(nextTag)+11, 16)
 		binary.BigEndian.PutUint32(p, nextTag)
+		p[4] = 0 // never the marker of blocked datagrams
 		nextTag++
 		return p, nextTag - 1
 	}
@@ -358,6 +389,9 @@ func run(env *simrt.Env, sci interface{}) {
 	liveness := func(m *mappingT, u0, u1 time.Time) int {
 		if m.dead {
 			return expired
+		}
+		if sc.Forever {
+			return alive
 		}
 		if !u1.After(m.r0.Add(L)) {
 			return alive
@@ -515,6 +549,20 @@ func run(env *simrt.Env, sci interface{}) {
 			}
 			dst.IP = ipForm(dst.IP, e.Form)
 			pl, tag := mkPayload()
+			if e.Blocked {
+				copy(pl[4:8], "BLKD")
+				_, _ = is.conn.WriteTo(append([]byte(nil), pl...), dst)
+				settle()
+				who, _, ok := collect(tag, pl)
+				if !ok {
+					return
+				}
+				if len(who) > 0 {
+					env.Fail(prop+"/misdelivered", "event %d: a datagram the NAT router's chunk filter discards was received by %s", ei, who[0].addr)
+					return
+				}
+				continue // no mapping, no permission, no refresh: the model does not change
+			}
 			var racer *simrt.Handle
 			var racePl []byte
 			var raceTag uint32
